@@ -15,11 +15,13 @@ for d in sorted(glob.glob(V + '/seeded/*/')):
                 rule = mm.group(1) + ' `' + mm.group(3) + '`'
     files = ', '.join(os.path.basename(f) for f in m['files_changed'])
     st = 'caught' if m.get('caught_by_checks') else ('superseded by a fix' if m.get('applies_to_repo_head') is False else '**missed**')
+    if st == 'caught' and m.get('applies_to_repo_head') is False:
+        st = 'caught (no longer applies: superseded by a later fix)'
     rnd = 'round 2' if sid.startswith('r2-') else 'round 1'
     s = stats.setdefault(rnd, [0, 0])
     if st != 'superseded by a fix':
         s[1] += 1
-        s[0] += st == 'caught'
+        s[0] += st.startswith('caught')
     rows.append('| %s | %s | %s | %s |' % (sid, files, st, rule))
 table = '| id | file(s) changed | result | first report |\n|---|---|---|---|\n' + '\n'.join(rows) + '\n'
 summary = '; '.join('%s: %d of %d caught' % (k, v[0], v[1]) for k, v in sorted(stats.items()))
